@@ -10,6 +10,8 @@ import Xandikos.Generated.Href
 import Xandikos.Generated.StrongEtag
 import Xandikos.Generated.PathMap
 import Xandikos.Generated.Collation
+import Xandikos.Generated.Unescape
+import Xandikos.Generated.Wellknown
 import Xandikos.Driver.Codec
 
 open Xandikos Xandikos.Codec
@@ -33,6 +35,11 @@ def gstep (line : String) : String :=
   | ["cse", e] => encL (Generated.create_strong_etag (fieldS e).toList)
   | ["xse", e] => encLO (Generated.extract_strong_etag ((field e).map String.toList))
   | ["mapfs", root, rel] => encL (Generated.map_to_file_path (fieldS root).toList (fieldS rel).toList)
+  | ["unesc", t, sp] =>
+    match Generated.unescape_text (fieldS t).toList (sp == "1") with
+    | .ok parts => "=" ++ ",".intercalate (parts.map fun p => pctEncode (String.ofList p))
+    | .error (.raised cls _) => "raise:" ++ cls
+  | ["wk", s, p] => bb (Generated.wellknown_redirects (fieldS s).toList (fieldS p).toList)
   | ["match", a, b, k] => exc (Generated.match_ (fieldS a).toList (fieldS b).toList (fieldS k).toList)
   | ["collate", name, a, b, k] =>
     match Generated.collations.find? (fun r => r.1 == (fieldS name).toList) with
